@@ -258,9 +258,9 @@ def build_real(root, repo=None):
 
 def make_real_root(root, vchild):
     shutil.rmtree(root, ignore_errors=True)
-    for sub in ("w/sub", "sub", "d", "bin"):
+    for sub in ("w/sub", "sub", "d/sub", "bin", "x"):     # (x: a directory of the caller without the relative programs)
         os.makedirs(os.path.join(root, sub))
-    for p in ("bin/c", "w/c", "w/sub/c", "c", "sub/c"):
+    for p in ("bin/c", "w/c", "w/sub/c", "c", "sub/c", "d/c", "d/sub/c"):   # (d/...: the same names exist under the child's directory)
         shutil.copy(vchild, os.path.join(root, p))
     for f in ("t0", "t1", "t2", "o5", "o6", "o9", "o11", "o30", "o31", "o50", "o63"):
         open(os.path.join(root, f), "w").close()
